@@ -453,6 +453,9 @@ impl Scenario for SrvFaultSim {
         }));
         drop(local);
         drop(rt);
+        if let Some(m) = crate::net::take_spin() {
+            out.violations.push(Violation::new("C09", "spins_after_end_of_stream", json!({"net": format!("{:?}", case.net), "tls": case.tls}), format!("a reader in the library keeps reading a closed connection in a loop without yielding: {}", m)));
+        }
         for p in simrt::take_panics() {
             if p.in_harness() {
                 out.harness_error = Some(format!("harness panic {} at {}", p.message, p.location()));
